@@ -21,8 +21,8 @@ CLAIMS = {
     "C07": ("seqx", "explicit-state BFS to closure for FIFO and LRU under entry and memory pressure; monitor: victims form a prefix of the ghost store order / last-use order", "§7 C07"),
     "C08": ("seqx", "explicit-state BFS for LFU/ARC/TLRU with ghost hit counts, recency ranks and exact ages; monitor: every victim is a score minimiser among the admissible candidates (ties free)", "§7 C08"),
     "C09": ("macx+thrx", "history enumeration over 84 Result functions (both spellings, three flavours, incl. bodies leaving through ?/return, ttl, and invalidate_on refreshes that fail) with every Ok/Err outcome script: Err never stored / served / evicting, first Ok stored and reused; plus every schedule (preemption bound 2/3) and every outcome of two or three concurrent callers of one Result function: a stored Ok survives any later Err", "§7 C09"),
-    "C10": ("macx", "history enumeration over 36 cache_if functions (incl. with ttl, with invalidate_on, with both and a Result) with every accept/reject script: consulted once per execution with that call's key and result, verdict decides storage", "§7 C10"),
-    "C11": ("macx", "history enumeration over 36 invalidate_on functions (limits none/1/2, ttl, max_memory) with versioned bodies and every verdict script: stale entries never served, refreshed value replaces the stale one and is served next", "§7 C11"),
+    "C10": ("macx+thrx", "history enumeration over 36 cache_if functions (incl. with ttl, with invalidate_on, with both and a Result) with every accept/reject script: consulted once per execution with that call's key and result, verdict decides storage; plus every schedule (preemption bound 2/3) and every verdict of two or three concurrent callers: one consultation per execution, cached iff some execution was accepted", "§7 C10"),
+    "C11": ("macx+thrx", "history enumeration over 36 invalidate_on functions (limits none/1/2, ttl, max_memory) with versioned bodies and every verdict script: stale entries never served, refreshed value replaces the stale one and is served next; plus every schedule (preemption bound 2/3) and every verdict of two or three concurrent callers: the value served is exactly the value shown to invalidate_on in that call", "§7 C11"),
     "C12": ("macx+thrx", "history enumeration over groups covering all 128 metadata assignments (tags/events/dependencies subsets of {x,y}, sync and async): every by_tag/by_event/by_dependency/invalidate_cache request incl. undeclared names; count and emptied caches compared with the metadata; plus every schedule (preemption bound 2/3) of two or three group invalidations racing with each other and with calls: counts stay exact", "§7 C12"),
     "C13": ("macx", "history enumeration with invalidate_with / invalidate_all_with for key subsets: exactly the matching keys go, bystanders untouched, and the C04-type monitors keep running after the invalidation", "§7 C13"),
     "C14": ("thrx+macx", "every interleaving (operation-boundary granularity, no effective preemption bound) of 2-4 real OS threads calling thread-scope functions of every policy / limit, compared with each thread's program run alone on a fresh thread; "
